@@ -69,7 +69,7 @@ type RowSet struct {
 	Cols []string
 	Rows [][]driver.Value
 	// BreakAfter > 0: the result set fails after delivering that many rows
-	// (rows.Next() == false, rows.Err() == errRowsBroken)
+	// (rows.Next() == false, rows.Err() == errRowsBroken); < 0: it fails on the first fetch
 	BreakAfter int
 }
 
